@@ -29,6 +29,8 @@ type drivenWallet struct {
 	store *testutil.EphemeralWalletStore
 	idx   types.ChainIndex // the index the stream left the wallet at
 	addr  types.Address
+
+	passThroughReverts int
 }
 
 func newDrivenWallet(env *chainlab.Env, cm *chain.Manager) (*drivenWallet, error) {
@@ -61,6 +63,23 @@ func (d *drivenWallet) step(cm *chain.Manager, chunk int) (n int, endedOnRevert 
 	}
 	if err != nil {
 		return 0, false, err
+	}
+	for _, ru := range rus {
+		// a reverted block through which the wallet's address only passed
+		// outputs (created and spent within the block) and kept nothing
+		lasting, eph := 0, 0
+		for _, sed := range ru.SiacoinElementDiffs() {
+			if sed.SiacoinElement.SiacoinOutput.Address != d.addr {
+				continue
+			} else if sed.Created && sed.Spent {
+				eph++
+			} else {
+				lasting++
+			}
+		}
+		if eph > 0 && lasting == 0 {
+			d.passThroughReverts++
+		}
 	}
 	if len(aus) > 0 {
 		d.idx = aus[len(aus)-1].State.Index
@@ -279,6 +298,7 @@ func runC06History(r *mon.Run, stream uint64) {
 		return
 	}
 	r.Count("linear_wallet_comparisons", 1)
+	r.Count("reverts_of_blocks_the_address_only_passed_through", d.passThroughReverts)
 	r.Eval()
 	r.Count("reorgs_observed", a.Reorgs)
 	if a.Reorgs > 0 {
@@ -325,6 +345,7 @@ func runC06(r *mon.Run, replay string) {
 	parallel(r.Pick(300, 5000), func(i int) { runC06History(r, uint64(60000+i)) })
 	r.Floor("wallet_audits", 1000)
 	r.Floor("chunks_ending_on_revert", 50)
+	r.Floor("reverts_of_blocks_the_address_only_passed_through", 15)
 	r.Floor("linear_wallet_comparisons", 100)
 	for _, k := range []string{wallet.EventTypeMinerPayout, wallet.EventTypeV1Transaction, wallet.EventTypeV2Transaction, wallet.EventTypeV1ContractResolution, wallet.EventTypeV2ContractResolution, wallet.EventTypeSiafundClaim, wallet.EventTypeFoundationSubsidy} {
 		r.Floor("event:"+k, 10)
